@@ -19,9 +19,12 @@ class ElementTriN3(ElementHcurl):
             [0.75, 0.25],
             [0.50, 0.50],
             [0.25, 0.75],
-            [0.0, 0.75],
-            [0.0, 0.50],
+            # facet 2: the locations follow the oriented basis functions
+            # returned by gbasis on meshes with sorted connectivity, i.e.
+            # from the lower to the higher vertex as on facets 0 and 1
             [0.0, 0.25],
+            [0.0, 0.50],
+            [0.0, 0.75],
             [0.25, 0.25],
             [0.25, 0.25],
             [0.50, 0.25],
